@@ -989,6 +989,7 @@ func (P) Generate(g *core.Gen) {
 	x.safely("primitives", x.primitives)
 	x.safely("byteSweeps", x.byteSweeps)
 	x.safely("round3", x.round3)
+	x.safely("addrv2Skips", x.addrv2Skips)
 	// random garbage into every decoder
 	for i := 0; i < g.N(300, 6000); i++ {
 		kind := kinds[r.Intn(len(kinds))]
@@ -1667,5 +1668,96 @@ func (x *gen) round3() {
 		}
 		tb = append(tb, 0, 0, 0, 0, 0)
 		x.dec("position", "tx", 70016, "b", tb, true)
+	}
+}
+
+// addrv2Skips: every way an addrv2 entry is skipped (unknown network id, I2P, CJDNS, OnionCat-in-IPv6,
+// IPv4-mapped IPv6) at the first, a middle and the last position, followed and preceded by kept entries of every
+// network; a skip path that consumes one byte too few or too many shifts everything after it.
+func (x *gen) addrv2Skips() {
+	r := x.r
+	vi := func(v uint64) []byte {
+		var w bytes.Buffer
+		wire.WriteVarInt(&w, 0, v)
+		return w.Bytes()
+	}
+	entry := func(id byte, addr []byte) []byte {
+		e := []byte{byte(r.Intn(256)), byte(r.Intn(256)), byte(r.Intn(256)), byte(r.Intn(256))}
+		e = append(e, vi(uint64(r.Intn(70000)))...)
+		e = append(e, id)
+		e = append(e, vi(uint64(len(addr)))...)
+		e = append(e, addr...)
+		return append(e, byte(1+r.Intn(255)), byte(1+r.Intn(255))) // non-zero port bytes: a shift is visible
+	}
+	rnd := func(n int) []byte {
+		b := r.Bytes(n)
+		for i := range b {
+			if b[i] == 0 {
+				b[i] = 0x5a
+			}
+		}
+		return b
+	}
+	kept := []func() []byte{
+		func() []byte { return entry(1, rnd(4)) },
+		func() []byte { a := rnd(16); a[0] = 0x20; return entry(2, a) },
+		func() []byte { return entry(3, rnd(10)) },
+		func() []byte { return entry(4, rnd(32)) },
+	}
+	skipped := map[string]func() []byte{
+		"i2p":       func() []byte { return entry(5, rnd(32)) },
+		"cjdns":     func() []byte { return entry(6, rnd(16)) },
+		"unknown0":  func() []byte { return entry(0, rnd(r.Intn(20))) },
+		"unknown7":  func() []byte { return entry(7, rnd(1+r.Intn(40))) },
+		"unknownff": func() []byte { return entry(0xff, rnd(512)) },
+		"onioncat": func() []byte {
+			a := rnd(16)
+			copy(a, []byte{0xfd, 0x87, 0xd8, 0x7e, 0xeb, 0x43})
+			return entry(2, a)
+		},
+		"v4mapped": func() []byte {
+			a := rnd(16)
+			copy(a, []byte{0, 0, 0, 0, 0, 0, 0, 0, 0, 0, 0xff, 0xff})
+			return entry(2, a)
+		},
+	}
+	names := []string{"i2p", "cjdns", "unknown0", "unknown7", "unknownff", "onioncat", "v4mapped"}
+	net := uint32(wire.MainNet)
+	for _, name := range names {
+		for _, pos := range []int{0, 1, 3} {
+			for _, follow := range []int{0, 1, 2, 3} {
+				var p []byte
+				const n = 4
+				p = append(p, vi(n)...)
+				for i := 0; i < n; i++ {
+					switch {
+					case i == pos:
+						p = append(p, skipped[name]()...)
+					case i == pos+1:
+						p = append(p, kept[follow]()...)
+					default:
+						p = append(p, kept[r.Intn(4)]()...)
+					}
+				}
+				x.dec("addrv2-skip:"+name, "addrv2", 70016, "b", p, true)
+				if follow == 0 {
+					x.msgCase("addrv2-skip:"+name, 70016, net, "b", frameMsg(net, []byte("addrv2"), uint32(len(p)), chainhash.DoubleHashB(p)[:4], p))
+					x.emit("addrv2-skip:"+name, true, "C08 v2 70016 b "+hx(append([]byte{28}, p...)))
+					x.emit("addrv2-skip:"+name, true, "C08 reuse addrv2 70016 "+hx(p))
+				}
+			}
+		}
+		// two skipped entries in a row, then kept ones; and only skipped ones
+		var p []byte
+		p = append(p, vi(4)...)
+		p = append(p, skipped[name]()...)
+		p = append(p, skipped[names[r.Intn(len(names))]]()...)
+		p = append(p, kept[r.Intn(4)]()...)
+		p = append(p, kept[r.Intn(4)]()...)
+		x.dec("addrv2-skip:"+name, "addrv2", 70016, "b", p, true)
+		q := append(vi(2), skipped[name]()...)
+		q = append(q, skipped[name]()...)
+		x.dec("addrv2-skip:"+name, "addrv2", 70016, "b", q, true)
+		x.dec("addrv2-skip:"+name, "addrv2", 70016, "b", append(append([]byte{}, q...), 1, 2, 3), true)
 	}
 }
